@@ -126,7 +126,12 @@ func GenB(t *rapid.T, maxChain int, withCrash bool) ScenarioB {
 	if rapid.IntRange(0, 11).Draw(t, "long") == 0 {
 		// a long chain that reaches the node in few large jumps (mostly through the P2P stores)
 		sc.ChainTimes = (rapid.IntRange(66, 140).Draw(t, "longlen") + len(sc.Chain) - 1) / len(sc.Chain)
-		split = rapid.SampledFrom([]string{"p2p", "p2p", "mixed"}).Draw(t, "longsplit")
+		split = rapid.SampledFrom([]string{"p2p", "p2p", "mixed", "da"}).Draw(t, "longsplit")
+		if split == "da" {
+			// the proposer published a long backlog in one go (block time far below the DA block time, or after
+			// a DA outage): hundreds of blobs of the chain sit in one or two DA heights
+			maxDA = uint64(rapid.IntRange(1, 2).Draw(t, "longmaxda"))
+		}
 	}
 	chain := sc.FullChain()
 	n := len(chain)
@@ -274,6 +279,16 @@ func runB(sc ScenarioB, dir, id string, step func(r *BRun, when string) *world.P
 			}
 			if pl.DAHeight > r.MaxDA {
 				r.MaxDA = pl.DAHeight
+			}
+		}
+		perHeight := map[uint64]int{}
+		for _, pl := range placements {
+			perHeight[pl.DAHeight]++
+		}
+		for _, n := range perHeight {
+			if n > 100 {
+				r.Labels = append(r.Labels, "da-height-with>100-blobs")
+				break
 			}
 		}
 		for _, ff := range sc.FetchFaults {
